@@ -211,15 +211,28 @@ def run_check(prop, tier):
             au["facts"] = fres["summary"]
             if fres["broken"]:
                 broken.append(("facts", fres["broken"]))
-        exe, log = build_harness(scratch)
+        exe, log = build_harness(scratch, race=(prop == "C14"))
+        cli = None
+        if exe is not None and prop in ("C14", "C20"):
+            cli = os.path.join(scratch, "xsel-cli")
+            pc = sh(["go", "build"] + (["-race"] if prop == "C14" else []) + ["-o", cli, "./xsel"], cwd=REPO, env=GOENV, check=False)
+            if pc.returncode != 0:
+                broken.append(("cli-build", "the command does not build: " + pc.stdout[-1500:]))
+                cli = None
         if exe is None:
             broken.append(("harness-build", "the harness does not build against %s:\n%s" % (REPO, log)))
         elif os.path.exists(os.path.join(OCAML, "xmodel")):
             run_tier = tier if not broken else "thorough"   # a broken obligation escalates the search for a failing input
             statf = os.path.join(scratch, prop + ".json")
             p = sh([exe, "-prop", prop, "-tier", run_tier, "-seed", str(seed), "-model", os.path.join(OCAML, "xmodel"),
-                    "-out", statf, "-replays", os.path.join(OUT, "replays")], cwd=scratch, env=GOENV, check=False,
+                    "-out", statf, "-replays", os.path.join(OUT, "replays")] + (["-cli", cli] if cli else []), cwd=scratch, env=GOENV, check=False,
                    timeout=7200)
+            if "DATA RACE" in (p.stdout or ""):
+                rp_path = os.path.join(OUT, "replays", "%s-data-race.json" % prop)
+                i0 = p.stdout.index("DATA RACE")
+                json.dump({"property": prop, "kind": "race-report", "note": "the Go race detector reported a data race while goroutines shared one tree, one compiled expression and one set of bindings",
+                           "report": p.stdout[max(0, i0 - 200):i0 + 3000]}, open(rp_path, "w"), indent=1)
+                violations.append((rp_path, "the race detector reports a data race during concurrent Exec: " + p.stdout[i0:i0 + 600].replace("\n", " | ")))
             if os.path.exists(statf):
                 stats = json.load(open(statf))
             else:
@@ -232,7 +245,7 @@ def run_check(prop, tier):
                     continue
                 open_ids.add(e["id"])
                 w = os.path.join(VERIF, e["witness"])
-                rp = sh([exe, "-replay", w, "-model", os.path.join(OCAML, "xmodel")], cwd=scratch, env=GOENV, check=False)
+                rp = sh([exe, "-replay", w, "-model", os.path.join(OCAML, "xmodel")] + (["-cli", cli] if cli else []), cwd=scratch, env=GOENV, check=False)
                 if rp.returncode == 1 or (stats.get("known_findings") or {}).get(e["id"], 0) > 0:
                     known_printed.append("KNOWN-FINDING: property=%s %s" % (prop, e["what"]))
             nfixed = 0
